@@ -188,7 +188,7 @@ def enum_corpus(tier):
 
 def _targets(tier):
     prof = "full" if tier == "quick" else "big"
-    req = ["nt:n_in>=253", "nt:n_out>=253", "nt:script>=253", "nt:wit-empty-stack", "nt:wit-item>=253", "nt:wit-item-0", "nt:trailing", "nt:outs>=5-all-empty-scripts"]
+    req = ["nt:n_in>=253", "nt:n_out>=253", "nt:script>=253", "nt:wit-empty-stack", "nt:wit-item>=253", "nt:wit-item-0", "nt:trailing", "nt:outs>=5-all-empty-scripts", "nt:script-3000..65533", "nt:wit-item-3000..65533"]
     if tier == "thorough":
         req.append("nt:script>=65536")
     return [
